@@ -1,4 +1,5 @@
 import SFV.Model.HwCompile
+import SFV.Proofs.HwCompile
 import Mathlib.Data.Matrix.Block
 import Mathlib.Tactic.Ring
 import Mathlib.Tactic.Linarith
@@ -161,5 +162,160 @@ theorem xcov_block_algebra {m : Type} [Fintype m] [DecidableEq m] {K : Type} [Co
     fromBlocks U 0 0 U * fromBlocks 0 T T 0 * (fromBlocks U 0 0 U)ᵀ = fromBlocks 0 B01 B01 0 := by
   rw [fromBlocks_transpose, fromBlocks_multiply, fromBlocks_multiply]
   simp only [Matrix.mul_zero, Matrix.zero_mul, add_zero, zero_add, transpose_zero, h]
+
+/-- no integer lies a quarter away from an integer -/
+theorem quarter_not_int (m : Int) : (0 : Rat) ≠ -(1 / 4) + (m : Rat) := by
+  intro h
+  have h4 : (4 : Rat) * (m : Rat) = 1 := by linarith
+  have h5 : ((4 * m : Int) : Rat) = ((1 : Int) : Rat) := by push_cast; linarith
+  have h6 : 4 * m = 1 := by exact_mod_cast h5
+  omega
+
+/-! ## `add_loss` / `remove_loss` -/
+
+theorem removeLoss_append_gate (l : List LCmd) (t : List LCmd) :
+    removeLoss (l ++ t) = removeLoss l ++ removeLoss t := by
+  induction l with
+  | nil => rfl
+  | cons x xs ih => cases x <;> simp [removeLoss, ih]
+
+theorem removeLoss_addLoss (g : Rat) (e : List Rat) :
+    ∀ (c : List (String × List Nat)) (loop : Nat) (out : List LCmd), addLoss g e loop c = some out → removeLoss out = c := by
+  intro c
+  induction c with
+  | nil => intro loop out h; simp [addLoss] at h; subst h; rfl
+  | cons x xs ih =>
+    intro loop out h
+    obtain ⟨cls, regs⟩ := x
+    simp only [addLoss] at h
+    by_cases hb : cls = "BSgate"
+    · simp only [hb, if_true] at h
+      cases he : e[loop]? with
+      | none => simp [he] at h
+      | some eta =>
+        cases hr : regs[1]? with
+        | none => simp [he, hr] at h
+        | some r =>
+          simp only [he, hr, Option.map_eq_some_iff] at h
+          obtain ⟨t, ht, rfl⟩ := h
+          have := ih (loop + 1) t ht
+          simp [removeLoss_append_gate, removeLoss, this, hb]
+    · simp only [hb, if_false, Option.map_eq_some_iff] at h
+      obtain ⟨t, ht, rfl⟩ := h
+      have := ih loop t ht
+      by_cases hm : cls = "MeasureFock" <;> by_cases hs : cls = "Sgate" <;>
+        simp [removeLoss_append_gate, removeLoss, this, hm, hs]
+
+/-- number of inserted loss channels -/
+def lossCount : List LCmd → Nat
+  | [] => 0
+  | .gate _ _ :: rest => lossCount rest
+  | .loss _ _ :: rest => lossCount rest + 1
+
+theorem lossCount_append (l t : List LCmd) : lossCount (l ++ t) = lossCount l + lossCount t := by
+  induction l with
+  | nil => simp [lossCount]
+  | cons x xs ih => cases x <;> simp [lossCount, ih] <;> omega
+
+theorem lossCount_addLoss (g : Rat) (e : List Rat) :
+    ∀ (c : List (String × List Nat)) (loop : Nat) (out : List LCmd), addLoss g e loop c = some out →
+      lossCount out = (c.filter fun x => x.1 = "MeasureFock" ∨ x.1 = "Sgate" ∨ x.1 = "BSgate").length := by
+  intro c
+  induction c with
+  | nil => intro loop out h; simp [addLoss] at h; subst h; rfl
+  | cons x xs ih =>
+    intro loop out h
+    obtain ⟨cls, regs⟩ := x
+    simp only [addLoss] at h
+    by_cases hb : cls = "BSgate"
+    · simp only [hb, if_true] at h
+      cases he : e[loop]? with
+      | none => simp [he] at h
+      | some eta =>
+        cases hr : regs[1]? with
+        | none => simp [he, hr] at h
+        | some r =>
+          simp only [he, hr, Option.map_eq_some_iff] at h
+          obtain ⟨t, ht, rfl⟩ := h
+          have := ih (loop + 1) t ht
+          simp [lossCount_append, lossCount, this, hb]
+    · simp only [hb, if_false, Option.map_eq_some_iff] at h
+      obtain ⟨t, ht, rfl⟩ := h
+      have := ih loop t ht
+      by_cases hm : cls = "MeasureFock" <;> by_cases hs : cls = "Sgate" <;>
+        simp [lossCount_append, lossCount, this, hm, hs, hb] <;> omega
+
+/-! ## `make_phases_compatible` -/
+
+/-- `wrapPi x` is THE representative of `x` modulo 2 in `(−1, 1]` -/
+theorem wrapPi_unique (x y : Rat) (h1 : -1 < y) (h2 : y ≤ 1) (m : Int) (hm : y = x + 2 * (m : Rat)) : wrapPi x = y := by
+  obtain ⟨⟨m', hm'⟩, h3, h4⟩ := wrapPi_spec x
+  have hd : wrapPi x - y = 2 * (((m' - m : Int)) : Rat) := by
+    rw [hm', hm]; push_cast; ring
+  have hlt : (((m' - m : Int)) : Rat) < 1 := by linarith
+  have hgt : (-1 : Rat) < (((m' - m : Int)) : Rat) := by linarith
+  have h5 : (m' - m : Int) < 1 := by exact_mod_cast hlt
+  have h6 : (-1 : Int) < (m' - m : Int) := by exact_mod_cast hgt
+  have h7 : m' - m = 0 := by omega
+  rw [h7] at hd
+  simp at hd
+  linarith
+
+theorem mod2_spec (q : Rat) : ∃ m : Int, mod2 q = q + 2 * (m : Rat) := by
+  refine ⟨-(q / 2).floor, ?_⟩
+  unfold mod2
+  push_cast
+  ring
+
+theorem makeCompatible_spec (phi corr prev : Rat) :
+    (∃ m : Int, makeCompatible phi corr prev = phi + (m : Rat)) ∧
+    -1 / 2 ≤ wrapPi (makeCompatible phi corr prev + corr - prev) ∧
+    wrapPi (makeCompatible phi corr prev + corr - prev) ≤ 1 / 2 := by
+  obtain ⟨⟨k, hk⟩, h1, h2⟩ := wrapPi_spec (phi + corr - prev)
+  unfold makeCompatible
+  simp only
+  by_cases hout : wrapPi (phi + corr - prev) < -1 / 2 ∨ wrapPi (phi + corr - prev) > 1 / 2
+  · rw [if_pos hout]
+    obtain ⟨n, hn⟩ := mod2_spec (phi + 1)
+    refine ⟨⟨2 * n + 1, by rw [hn]; push_cast; ring⟩, ?_⟩
+    rcases hout with hlo | hhi
+    · -- w < -1/2: the new representative is w + 1
+      have : wrapPi (mod2 (phi + 1) + corr - prev) = wrapPi (phi + corr - prev) + 1 := by
+        apply wrapPi_unique _ _ (by linarith) (by linarith) (k - n)
+        rw [hn, hk]; push_cast; ring
+      rw [this]
+      constructor <;> linarith
+    · have : wrapPi (mod2 (phi + 1) + corr - prev) = wrapPi (phi + corr - prev) - 1 := by
+        apply wrapPi_unique _ _ (by linarith) (by linarith) (k - n - 1)
+        rw [hn, hk]; push_cast; ring
+      rw [this]
+      constructor <;> linarith
+  · rw [if_neg hout]
+    push Not at hout
+    exact ⟨⟨0, by simp⟩, hout.1, hout.2⟩
+
+/-! ## parameter rules -/
+
+theorem hardCodedClash_false_iff (l p : List GArg) :
+    hardCodedClash l p = false ↔ ∀ xy ∈ l.zip p, xy.1 = xy.2 ∨ xy.1.isSymbol = true ∨ xy.2.isExpr = true := by
+  simp only [hardCodedClash, List.any_eq_false, Bool.and_eq_true, decide_eq_true_eq, Bool.not_eq_true',
+    Bool.or_eq_false_iff, not_and]
+  constructor
+  · intro h xy hxy
+    by_cases he : xy.1 = xy.2
+    · exact Or.inl he
+    · have := h xy hxy he
+      by_cases hs : xy.1.isSymbol = true
+      · exact Or.inr (Or.inl hs)
+      · right; right
+        have hs' : xy.1.isSymbol = false := by simpa using hs
+        have := this
+        simp only [hs', true_and] at this
+        simpa using this
+  · intro h xy hxy hne
+    rcases h xy hxy with he | hs | hx
+    · exact absurd he hne
+    · simp [hs]
+    · simp [hx]
 
 end SFV.Hw
